@@ -259,13 +259,26 @@ class Domain:
         return isinstance(k, tuple) or (isinstance(k, str) and (k.startswith("self.") or k in self.global_keys))
 
     def bind_params(self, finfo, args, kwargs):
-        """Parameter name -> abstract value for a call of `finfo` (defaults constant-folded, else TOP)."""
+        """Parameter name -> abstract value for a call of `finfo` (defaults constant-folded, else TOP).
+        Surplus positional values are collected into the callee's *args as a TupleV (a spliced TupleV is flattened)."""
         from .model import fold, NotConst
 
         bound = {}
         pos = finfo.pos_params()
         for p, a in zip(pos, args):
             bound[p.name] = a
+        va = [p.name for p in finfo.params if p.kind == "vararg"]
+        if va:
+            extra = []
+            for a in args[len(pos):]:
+                if isinstance(a, TupleV):
+                    extra += list(a.items)
+                else:
+                    extra.append(a if _hashable(a) else TOP)
+            bound[va[0]] = TupleV(tuple(extra))
+        kw = [p.name for p in finfo.params if p.kind == "kwarg"]
+        if kw:
+            bound[kw[0]] = TupleV(tuple(sorted((k, v) for k, v in kwargs.items() if _hashable(v) and finfo.param(k) is None), key=lambda kv: kv[0]))
         for k, v in kwargs.items():
             if not k.startswith("**"):
                 bound[k] = v
